@@ -24,6 +24,26 @@ def r1_visibility(text):
     return eds
 
 
+def _split_fields(m, lo, hi):
+    """split a field list at commas that are outside every bracket AND outside generic angle brackets"""
+    parts, a, i, ang = [], lo, lo, 0
+    while i < hi:
+        c = m[i]
+        if c in "([{":
+            i = match_close(m, i) + 1
+            continue
+        if c == "<":
+            ang += 1
+        elif c == ">" and m[i - 1] not in "-=":
+            ang = max(0, ang - 1)
+        elif c == "," and ang == 0:
+            parts.append((a, i))
+            a = i + 1
+        i += 1
+    parts.append((a, hi))
+    return parts
+
+
 def r1p_all_public(text):
     """alternative to R1 (units whose contracts sit on impls of public traits): every extracted item and
     field becomes `pub`: `pub(..)` -> `pub`, and `pub ` is inserted where no visibility is written.
@@ -42,7 +62,7 @@ def r1p_all_public(text):
             k = match_close(m, lb) + 1
             continue
         break
-    head = re.match(r"(pub\b)?\s*(?:const\s+|async\s+|unsafe\s+)*(fn|struct|enum|trait|type|const|static)\b", m[k:])
+    head = re.match(r"(pub(?:\s*\([^)]*\))?(?![A-Za-z0-9_]))?\s*(?:const\s+|async\s+|unsafe\s+)*(fn|struct|enum|trait|type|const|static)\b", m[k:])
     if head and not head.group(1):
         eds.append(Edit(k, k, "pub ", "R1"))
     if head and head.group(2) == "struct":
@@ -55,14 +75,14 @@ def r1p_all_public(text):
             j += 1
         if j < len(m) and m[j] in "{(":
             close = match_close(m, j)
-            for (a, b) in split_top_level(m, j + 1, close, ","):
+            for (a, b) in _split_fields(m, j + 1, close):
                 a2 = skip_ws(m, a)
                 while m.startswith("#", a2):
                     lb = m.index("[", a2)
                     a2 = skip_ws(m, match_close(m, lb) + 1)
                 if a2 >= b or m[a2:b].strip() == "":
                     continue
-                if not re.match(r"pub\b", m[a2:]):
+                if not re.match(r"pub(?![A-Za-z0-9_])", m[a2:]):
                     eds.append(Edit(a2, a2, "pub ", "R1"))
     return eds
 
